@@ -142,6 +142,11 @@ def make_case(seed, depth, flavour="basic"):
         if any(l is None for l in lens):
             continue
         break
+    if flavour == "dup" and prog[0] == "static" and len(prog[1]) >= 2:
+        sites = list(prog[1])
+        sites[-1] = (sites[0][0], sites[-1][1], sites[-1][2])      # the last site re-uses the first site's address
+        prog = ("static", sites, prog[2])
+        core = desugar(prog)
     nb = max([len(p[1]) for p in walk(core) if p[0] == "switch"] + [2])
     args = [G.value(t, nb) for t in argt]
     # flags are array flags: a Python-bool mask flag takes the concrete shortcut of ChoiceMap.mask (known finding K17);
@@ -262,6 +267,27 @@ def observe_bwd(req, case):
         return {"flat": True, "look": [(p, flat_lookup(req, p)) for p in case["univ"]]}
     except NotFlat:
         return {"flat": False, "look": []}
+
+
+def retdiff_check(rd, old_retval):
+    """C08 part 1 on the implementation: leaves of the return diff tagged NoChange must carry the old return value.
+    returns {"leaves": n, "nochange": m, "violations": [leaf indices]} (None if the structures cannot be aligned)"""
+    import numpy as np
+    import jax.tree_util as jtu
+    from genjax._src.core.compiler.interpreters.incremental import Diff, NoChange
+    leaves = jtu.tree_leaves(rd, is_leaf=lambda x: isinstance(x, Diff))
+    flat = []
+    for l in leaves:
+        if isinstance(l, Diff):
+            sub = jtu.tree_leaves(l.primal)
+            flat += [(x, l.tangent == NoChange) for x in sub]
+        else:
+            flat.append((l, True))          # an untagged leaf is a literal: cannot have changed
+    old = jtu.tree_leaves(old_retval)
+    if len(old) != len(flat):
+        return None
+    viol = [i for i, ((x, nc), o) in enumerate(zip(flat, old)) if nc and not (np.shape(x) == np.shape(o) and bool(np.all(np.asarray(x) == np.asarray(o))))]
+    return {"leaves": len(flat), "nochange": sum(1 for _, nc in flat if nc), "violations": viol}
 
 
 def tag_tree(t, changed):
@@ -394,6 +420,15 @@ def run_case(case):
     r = guarded(lambda: g.simulate(key, jargs))
     if r[0] != "ok":
         steps.append({"kind": "sim", "seed": case["keyseed"], "res": r})
+        if case["flavour"] == "dup":
+            # the malformed stream: importance must report the re-used address too
+            def do_gen0():
+                tr, w = g.importance(jax.random.key(case["keyseed"] + 17), gfi.build_chm([], 0), jargs)
+                return tr, (observe(tr, case), gfi.from_jax(w, "S"))
+            rg = guarded(do_gen0)
+            if rg[0] == "ok":
+                rg = ("ok", rg[1][1])
+            steps.append({"kind": "gen", "seed": case["keyseed"] + 17, "entries": [], "style": 0, "res": rg})
         return {"steps": steps}
     tr0 = r[1]
     try:
@@ -457,6 +492,93 @@ def run_case(case):
             if case["zero_len"] and r2[0] == "err" and r2[1] in ("EMissingAddress", "EType"):
                 r2 = ("known", "zero-length-assess", r2[2])
             steps.append({"kind": "assess_own", "ti": ti, "res": r2})
+    # 4a. C04: simulate is a function of (key, args); no two sites draw with one key (key-echo probes: every site's
+    #     sample is 20 bits of the key it was given)
+    def do_again():
+        return observe(g.simulate(key, jargs), case)
+    steps.append({"kind": "sim_again", "res": guarded(do_again)})
+
+    def do_echo():
+        gfi.ECHO_MODE = True
+        try:
+            ge = gfi.realise(case["prog"])
+            tre = ge.simulate(key, jargs)
+            vals = []
+            chm_e = tre.get_choices()
+            for p_ in case["univ"]:
+                v = gfi.lookup(chm_e, p_)
+                if isinstance(v, int):
+                    vals.append((p_, v))
+            return vals
+        finally:
+            gfi.ECHO_MODE = False
+    if not has(core, ("switch",)) or True:
+        steps.append({"kind": "echo", "res": guarded(do_echo)})
+    # 4b. propose with the simulate key (C38), wrappers (C38), get_subtrace at the static sites (C34), assess of partial maps (C22)
+    r = guarded(lambda: g.propose(key, jargs))
+    if r[0] == "ok":
+        try:
+            chm_p, sc_p, rv_p = r[1]
+            lk = [(p, gfi.lookup(chm_p, p)) for p in case["univ"] + case["junk"]]
+            r = ("ok", {"score": gfi.from_jax(sc_p, "S"), "ret": gfi.from_jax(rv_p, case["rett"]), "look": lk})
+        except AssertionError as e:
+            r = ("inexact", str(e))
+    steps.append({"kind": "propose", "seed": case["keyseed"], "res": r})
+
+    def wrappers():
+        from genjax import Update, DiffAnnotate, EmptyRequest
+        from genjax._src.core.compiler.interpreters.incremental import Diff
+        out = {}
+        k1 = jax.random.key(5)
+        nd = Diff.no_change(jargs)
+        sel = gfi.realise_sel(case["sels"][0])
+        try:
+            out["project"] = [gfi.from_jax(tr0.project(k1, sel), "S"), gfi.from_jax(g.project(k1, tr0, sel), "S")]
+        except NotImplementedError:
+            out["project"] = None
+        ents = [(p, v) for (p, v) in o0["look"] if v is not None and p in case["univ"]][:2]
+        chm = gfi.build_chm(ents, 0)
+        a = Update(chm).edit(k1, tr0, nd)
+        b = tr0.update(k1, chm, nd)
+        c = tr0.edit(k1, Update(chm), nd)
+        d = DiffAnnotate(Update(chm)).edit(k1, tr0, nd)
+        e = g.edit(k1, tr0, Update(chm), nd)
+        obs = lambda x: (observe(x[0], case), gfi.from_jax(x[1], "S"))
+        out["update_variants"] = [obs(a), obs(b), obs(c), obs(d), obs(e)]
+        t1, w1 = g.importance(k1, chm, jargs)
+        t2, w2 = g.generate(k1, chm, jargs)
+        out["importance_generate"] = [(observe(t1, case), gfi.from_jax(w1, "S")), (observe(t2, case), gfi.from_jax(w2, "S"))]
+        t3, w3, _, b3 = EmptyRequest().edit(k1, tr0, nd)
+        out["empty_identity"] = [observe(t3, case), gfi.from_jax(w3, "S"), type(b3).__name__]
+        return out
+    if kinds_of(core) <= set(EDIT_OK_UPDATE) and not has(core, ("switch",)) and not nested_mask(core) and not case["zero_len"]:
+        steps.append({"kind": "wrappers", "res": guarded(wrappers)})
+    if core[0] == "static":
+        for (a, sg, es) in core[1][:3]:
+            def do_sub(a=a):
+                st = tr0.get_subtrace(gfi.addr_name(a))
+                pre = [("s", x) for x in a]
+                rel = [p[len(pre):] for p in case["univ"] if p[:len(pre)] == pre]
+                sub_chm = st.get_choices()
+                lk = []
+                for q in rel:
+                    v = gfi.lookup(sub_chm, q)
+                    if isinstance(v, tuple):
+                        raise AssertionError(f"lookup {q} -> {v}")
+                    lk.append((q, v))
+                return (gfi.from_jax(st.get_score(), "S"), lk)
+            steps.append({"kind": "subtrace", "ti": 0, "addr": a, "res": guarded(do_sub)})
+        # assess with one site's choices removed: MissingAddress exactly when a visited address has no value
+        if not no_assess and len(core[1]) >= 1:
+            a = core[1][rng.randrange(len(core[1]))][0]
+            pre = [("s", x) for x in a]
+            ents = [(p, v) for (p, v) in o0["look"] if v is not None and p in case["univ"] and p[:len(pre)] != pre]
+            full = [(p, v) for (p, v) in o0["look"] if v is not None and p in case["univ"]]
+            for nm, es_ in (("assess_partial", ents), ("assess_full", full)):
+                def do_as(es_=es_):
+                    sc, rv = g.assess(gfi.build_chm(es_, 0), jargs)
+                    return (gfi.from_jax(sc, "S"), gfi.from_jax(rv, case["rett"]))
+                steps.append({"kind": nm, "entries": es_, "dropped": a, "res": guarded(do_as)})
     # 5. edits on the simulated trace (and chained on their results), each followed by assess and by its backward request
     kinds = edit_kinds(case)
     if kinds and not case["zero_len"]:
@@ -485,19 +607,37 @@ def run_case(case):
             def do_edit():
                 req = realise_req(q)
                 ntr, w, rd, bwd = req.edit(jax.random.key(eseed), cur, make_argdiffs(njargs, changed))
-                return ntr, bwd, (observe(ntr, case), gfi.from_jax(w, "S"), observe_bwd(bwd, case))
+                return ntr, bwd, (observe(ntr, case), gfi.from_jax(w, "S"), observe_bwd(bwd, case), retdiff_check(rd, cur.get_retval()))
             r = guarded(do_edit)
             step = {"kind": "edit", "ti": cur_ti, "seed": eseed, "req": q, "args": nargs, "changed": changed,
                     "old_args": cur_args, "old_obs": cur_obs}
             if r[0] == "err" and has(core, ("switch",)) and "Custom node type mismatch" in r[2]:
                 r = ("known", "switch-edit-retdiff", r[2])
+            if r[0] == "err" and r[2].startswith("AssertionError") and nested_mask(core):
+                r = ("known", "mask-of-mask-edit", r[2])      # K26: Mask.build of a Mask whose flag is a Diff
             if r[0] != "ok":
                 step["res"] = r
                 steps.append(step)
                 continue
             ntr, bwd, ob = r[1]
-            step["res"] = ("ok", {"trace": ob[0], "weight": ob[1], "bwd": ob[2]})
+            step["res"] = ("ok", {"trace": ob[0], "weight": ob[1], "bwd": ob[2], "retdiff": ob[3]})
             steps.append(step)
+            # C08: the same edit under the other honest tagging of the unchanged arguments gives the same result
+            alt = [(c_ if a0 != a1 else (not c_)) for c_, a0, a1 in zip(changed, cur_args, nargs)]
+            if has(core, ("switch",)):
+                alt = [(False if t_ in ("I", "B") else c_) for c_, t_ in zip(alt, case["argt"])]
+            if kind == "index":
+                alt = list(changed)
+            if alt != changed:
+                def do_alt():
+                    req = realise_req(q)
+                    ntr2, w2, rd2, bwd2 = req.edit(jax.random.key(eseed), cur, make_argdiffs(njargs, alt))
+                    return (observe(ntr2, case), gfi.from_jax(w2, "S"), observe_bwd(bwd2, case), retdiff_check(rd2, cur.get_retval()))
+                ra = guarded(do_alt)
+                if ra[0] == "err" and has(core, ("switch",)) and "Custom node type mismatch" in ra[2]:
+                    ra = ("known", "switch-edit-retdiff", ra[2])
+                steps.append({"kind": "tagging", "changed": changed, "alt": alt, "res": ra,
+                              "ref": {"trace": ob[0], "weight": ob[1], "bwd": ob[2]}})
             traces.append(ntr)
             new_ti = len(traces) - 1
             edit_index = sum(1 for s_ in steps if s_["kind"] == "edit") - 1
@@ -518,12 +658,59 @@ def run_case(case):
                 btr, bw, _, _ = bwd.edit(jax.random.key(bseed), ntr, make_argdiffs(old_jargs, changed))
                 return (observe(btr, case), gfi.from_jax(bw, "S"))
             rb = guarded(do_bwd)
+            if rb[0] == "err" and has(core, ("switch",)) and "Custom node type mismatch" in rb[2]:
+                rb = ("known", "switch-edit-retdiff", rb[2])
             if rb[0] == "err" and rb[1] == "ENotSupported" and not ob[2]["flat"]:
                 rb = ("known", "scan-regen-bwd", rb[2])      # Scan.edit_regenerate returns a VectorRequest no edit accepts (K24)
             steps.append({"kind": "bwd", "ei": edit_index, "seed": bseed, "res": rb, "fwd_weight": ob[1], "orig_obs": cur_obs,
                           "req_kind": q[0]})
             cur, cur_obs, cur_args, cur_jargs, cur_ti = ntr, ob[0], nargs, njargs, new_ti
+    # 6. C23: the same calls inside jax.jit, and jax.vmap over keys (a subset of the cases: compilation is slow)
+    if case["seed"] % case.get("jit_every", 5) == 0 and not case["zero_len"]:
+        def do_jit():
+            out = {}
+            trj = jax.jit(g.simulate)(key, jargs)
+            out["sim"] = observe(trj, case)
+            if not no_assess:
+                sc, rv = jax.jit(g.assess)(trj.get_choices(), trj.get_args())
+                out["assess"] = (gfi.from_jax(sc, "S"), gfi.from_jax(rv, case["rett"]))
+            gsteps = [s_ for s_ in steps if s_["kind"] == "gen" and s_["res"][0] == "ok"]
+            if gsteps:
+                s_ = gsteps[0]
+                chm = gfi.build_chm(s_["entries"], s_["style"])
+                trg, w = jax.jit(g.importance)(jax.random.key(s_["seed"]), chm, jargs)
+                out["gen"] = (observe(trg, case), gfi.from_jax(w, "S"))
+            psteps = [s_ for s_ in steps if s_["kind"] == "project" and s_["res"][0] == "ok"]
+            if psteps:
+                sel = gfi.realise_sel(psteps[0]["sel"])
+                out["project"] = gfi.from_jax(jax.jit(lambda k_, t_: t_.project(k_, sel))(jax.random.key(1), tr0), "S")
+            return out
+        steps.append({"kind": "jit", "res": guarded(do_jit)})
+
+        def do_vmapkeys():
+            ks = jax.random.split(jax.random.key(case["keyseed"] + 3), 3)
+            batched = jax.vmap(lambda k_: g.simulate(k_, jargs))(ks)
+            import jax.tree_util as jtu
+            outs = []
+            for i in range(3):
+                sl = jtu.tree_map(lambda v: v[i], batched)
+                single = g.simulate(ks[i], jargs)
+                outs.append((observe(sl, case), observe(single, case)))
+            return outs
+        steps.append({"kind": "vmapkeys", "res": guarded(do_vmapkeys)})
     return {"steps": steps}
+
+
+def nested_mask(core):
+    """a mask applied directly to a generative function whose return value is already a Mask"""
+    for p in walk(core):
+        if p[0] == "mask":
+            g = p[1]
+            while g[0] == "dimap" and g[3] == ("var", 2):
+                g = g[2]
+            if g[0] == "mask":
+                return True
+    return False
 
 
 def masked_iterate_nonfinal(p):
@@ -598,6 +785,16 @@ def c_step(st, case, tmap, emap):
             look = clist([f"({c_path(p)}, {'None' if v is None else '(Some ' + cz(v) + ')'})" for (p, v) in b["look"]])
             return f"({c_tobs(o['trace'], case)}, {cz(o['weight'])}, {{| b_flat := {cbool(b['flat'])}; b_look := {look} |}})"
         return f"StEdit {tmap[st['ti']]}%nat {st['seed']}%N {c_req(st['req'])} {args} {tags} {c_want(r, okfn)}"
+    if k == "propose":
+        return f"StPropose {st['seed']}%N {c_args(case)} {c_want(r, lambda o: c_tobs(o, case))}"
+    if k == "subtrace":
+        def okf(o):
+            look = clist([f"({c_path(p)}, {'None' if v is None else '(Some ' + cz(v) + ')'})" for (p, v) in o[1]])
+            return f"({cz(o[0])}, {look})"
+        return f"StSub {tmap[st['ti']]}%nat {gfi.c_addr(st['addr'])} {c_want(r, okf)}"
+    if k in ("assess_partial", "assess_full"):
+        return (f"StAssess {c_entries(st['entries'])} {c_args(case)} "
+                f"{c_want(r, lambda o: '(' + cz(o[0]) + ', ' + c_val(o[1], case['rett']) + ')')}")
     if k == "bwd":
         return f"StBwd {emap[st['ei']]}%nat {st['seed']}%N {c_want(r, lambda o: '(' + c_tobs(o[0], case) + ', ' + cz(o[1]) + ')')}"
     raise ValueError(k)
@@ -611,8 +808,8 @@ def shipped_steps(out):
     mt = me = 0          # model counters
     for i, s in enumerate(out["steps"]):
         k, tag = s["kind"], s["res"][0]
-        ship = tag in ("ok", "err")
-        if k in ("assess_own", "project", "edit") and s["ti"] not in tmap:
+        ship = tag in ("ok", "err") and k not in ("wrappers", "sim_again", "echo", "jit", "vmapkeys", "tagging")
+        if k in ("assess_own", "project", "edit", "subtrace") and s["ti"] not in tmap:
             ship = False
         if k == "bwd" and s["ei"] not in emap:
             ship = False
